@@ -658,6 +658,36 @@ func execC12(r *kernel.Run, s C12Spec) {
 			}
 		}
 	}
+	// statements with factors beyond the signed 64-bit range, requested through the honest API: whatever the
+	// prover makes of them, an accepted proof must report and imply only true facts
+	for _, f := range []uint{1 << 63, 1<<63 + 1, 1<<64 - 1} {
+		for _, sign := range []int{1, -1} {
+			for _, bnd := range []int64{0, 5} {
+				st := s.Stmts[0]
+				id := fmt.Sprintf("huge-factor:attr%d:%d:sign%d:bound%d", st.Attr, f, sign, bnd)
+				if !wanted(s.OnlyFault, id) {
+					continue
+				}
+				stm := &rangeproof.Statement{Sign: sign, Factor: f, Bound: big.NewInt(bnd)}
+				var pl gabi.ProofList
+				var err error
+				if p := guard(func() {
+					var b *gabi.DisclosureProofBuilder
+					if b, err = rw.hc.Cred.CreateDisclosureProofBuilder(rw.disclosed, map[int][]*rangeproof.Statement{st.Attr: {stm}}, false); err != nil {
+						return
+					}
+					pl, err = gabi.ProofBuilderList{b}.BuildProofList(rw.sess.Context, rw.sess.Nonce, rw.sess.IsSig)
+				}); p != "" || err != nil {
+					r.Probe("huge-factor-refused-by-prover")
+					continue
+				}
+				if wb, merr := json.Marshal(pl); merr == nil {
+					r.Probe("huge-factor-proof-built")
+					deliver(id, "descriptor-edge", wb)
+				}
+			}
+		}
+	}
 	// Byzantine holder who chooses the statement AFTER the challenge: it hashes fixed first-message values
 	// T_i = R^(2^(64 i)), T_m = R^(X - r_m), waits for c, and only then picks the commitments C_i and the
 	// bound k (neither is an input of the challenge) so that every T is reconstructed exactly
